@@ -469,7 +469,7 @@ func (cpu *CPU) nWrite16_cross(bank byte, addr uint16, value uint16) {
 	ll := byte(value)
 	hh := byte(value >> 8)
 	cpu.Bus.EaWrite(ea, ll)
-	cpu.Bus.EaWrite(ea+1, hh)
+	cpu.Bus.EaWrite((ea+1)&0x00ffffff, hh) // wrap on 24bits
 }
 
 func (cpu *CPU) nRead(bank byte, addr uint16) byte {
@@ -561,7 +561,7 @@ func (cpu *CPU) cmdRead16() uint16 {
 		m_DP_Indirect_Y,
 		m_Stack_Relative_Indirect_Y:
 		ll := cpu.Bus.EaRead(cpu.StepInfo.EA) // todo - zastapic to jakos?
-		hh := cpu.Bus.EaRead(cpu.StepInfo.EA + 1)
+		hh := cpu.Bus.EaRead((cpu.StepInfo.EA + 1) & 0x00ffffff) // wrap on 24bits
 		return uint16(hh)<<8 | uint16(ll)
 
 	case m_Absolute,
@@ -622,7 +622,7 @@ func (cpu *CPU) cmdWrite16(value uint16) {
 		ll := byte(value)
 		hh := byte(value >> 8)
 		cpu.Bus.EaWrite(cpu.StepInfo.EA, ll)
-		cpu.Bus.EaWrite(cpu.StepInfo.EA+1, hh)
+		cpu.Bus.EaWrite((cpu.StepInfo.EA+1)&0x00ffffff, hh) // wrap on 24bits
 
 	case m_Absolute,
 		m_DP_X_Indirect,
@@ -1079,7 +1079,7 @@ func (cpu *CPU) Step() (int, bool) {
 	}
 
 	// instruction execution
-	cpu.StepInfo = StepInfo{ea, addr, mode}
+	cpu.StepInfo = StepInfo{ea & 0x00ffffff, addr, mode} // the address bus is 24 bits wide
 	instructions[opcode].proc(cpu)
 
 	// counter and PC update
